@@ -402,7 +402,13 @@ func filterLatest(files []string, n int) []string {
 }
 
 func timestamp(file string) string {
-	return rTimestamp.FindString(file)
+	// The start time is the LAST timestamp-shaped text of the file name: the
+	// directory and the DAG name in front of it may contain such text too.
+	m := rTimestamp.FindAllString(filepath.Base(file), -1)
+	if len(m) == 0 {
+		return ""
+	}
+	return m[len(m)-1]
 }
 
 func readLineFrom(f *os.File, offset int64) ([]byte, error) {
